@@ -476,7 +476,10 @@ func c19WStat(r *Run) {
 						if jc, ok := alt.(*ssa.Call); ok && calleeName(&jc.Call) == "path.Join" {
 							el := varargsElems(jc.Call.Args[0])
 							if len(el) == 2 && isDirField(sc, el[1], "Name") {
-								okT = true
+								// … joined to the directory of the entry's own path
+								if dc, ok := el[0].(*ssa.Call); ok && calleeName(&dc.Call) == "path.Dir" && pt.classAt(fn, dc.Call.Args[0], c, nil, 0) == pRC {
+									okT = true
+								}
 							}
 						}
 					}
